@@ -398,8 +398,11 @@ def run_check(prop, tier, repo, jobs, seed):
     evidence["coverage"] = cov
     evidence["violations"] = n_viol
     evidence["wall_s"] = round(time.time() - t0, 2)
-    os.makedirs(os.path.join(VERIF, "evidence"), exist_ok=True)
-    with open(os.path.join(VERIF, "evidence", f"{prop}.json"), "w") as f:
+    # evidence describes runs against /repo itself; runs against scratch copies (mutants,
+    # seeded changes) go to the ignored work directory
+    ev_dir = os.path.join(VERIF, "evidence") if os.path.realpath(repo) == "/repo" else os.path.join(VERIF, ".work", "evidence_scratch")
+    os.makedirs(ev_dir, exist_ok=True)
+    with open(os.path.join(ev_dir, f"{prop}.json"), "w") as f:
         json.dump(evidence, f, indent=1)
     for ln in lines:
         print(ln)
